@@ -736,6 +736,8 @@ def emit_method(tr, fam: Family, info, m: str, sig, open_rec=None) -> None:
             bad(None, f"{root}.{m}: a method that changes a table or a collection passed to it")
         info.inout.add(m)
     env0 = {p: t for p, t in params}
+    info.method_outs = getattr(info, "method_outs", {})
+    info.method_outs[m] = [p for p, _ in muts]  # the in/out parameters the translated method returns after self, in order
     ret, muts, env0, pre = py2v.generator_parts(ret, muts, env0)
     if pre:
         info.inout.add(m)
